@@ -15,7 +15,7 @@ RULE = ("Hypothesis-generated states of importable classes (default **params sig
         "differs from the Parameter default + **params; positional + keyword without **params; two positionals) with values "
         "from a recursive literal strategy (big/negative ints, floats incl. -0.0, extremes, inf, nan; strings with quotes, "
         "backslashes, newlines, unicode; bytes, bools, None; lists, tuples incl. empty and 1-tuples, dicts, sets, nested 3 "
-        "deep; nested Parameterized as value and inside lists) and explicit or auto names; oracle = eval(pprint()) and "
+        "deep; non-finite floats and tuples as dict keys; None held where the default is not None; nested Parameterized as value and inside lists), explicit or auto names, optionally after an object of a different class with the same qualified name was printed; oracle = eval(pprint()) and "
         "eval(script_repr()) rebuild an object of the same class with structurally equal parameter values (Python ==, container "
         "types exact, NaN==NaN, auto-generated names ignored). Non-trivial = some non-default value needs care to print (escape, "
         "negative/non-finite number, empty container, 1-tuple, set, nested Parameterized, explicit name, positional "
@@ -36,7 +36,10 @@ _leaf = st.one_of(
     st.booleans().map(lambda v: ["b", v]),
     st.just(["n"]),
 )
-_key = st.one_of(st.integers(-2, 3).map(lambda v: ["i", v]), _text.map(lambda v: ["s", v]))
+_key = st.one_of(st.integers(-2, 3).map(lambda v: ["i", v]), _text.map(lambda v: ["s", v]),
+                 st.sampled_from(["1.5", "inf", "-inf", "-0.5"]).map(lambda v: ["f", v]),
+                 st.lists(st.one_of(st.integers(-2, 3).map(lambda v: ["i", v]), st.sampled_from(["inf", "2.5"]).map(lambda v: ["f", v])),
+                          max_size=2).map(lambda v: ["t", v]))
 _hashable = st.one_of(st.integers(-3, 3).map(lambda v: ["i", v]), _text.map(lambda v: ["s", v]),
                       st.sampled_from(["1.5", "-0.5", "inf"]).map(lambda v: ["f", v]), st.just(["n"]))
 
@@ -46,7 +49,8 @@ def _sub():
         "x": st.one_of(st.integers(-3, 3).map(lambda v: ["i", v]), st.sampled_from(["-1.5", "2.0"]).map(lambda v: ["f", v])),
         "label": _text.map(lambda v: ["s", v]),
         "anyv": _leaf,
-        "name": st.sampled_from(["subname", "it's"]),
+        "opt": st.sampled_from([["n"], ["n"], ["i", 1]]),
+        "name": st.sampled_from(["subname", "it's", "Sub"]),
     }).map(lambda d: ["P", "Sub", d])
 
 
@@ -67,7 +71,7 @@ _num = st.one_of(st.integers(-4, 4).map(lambda v: ["i", v]),
                  st.sampled_from(["1.5", "-2.25", "-0.0", "1e308", "inf", "-inf", "nan", "0.1"]).map(lambda v: ["f", v]))
 _int = st.one_of(st.integers(-4, 8), st.sampled_from([2 ** 70, -2 ** 65])).map(lambda v: ["i", v])
 _str = _text.map(lambda v: ["s", v])
-_names = st.sampled_from([None, None, "myname", "with 'quote'", "K7", "@cls1", "back\\slash", "@cls00017_left", "@cls000123"])
+_names = st.sampled_from([None, None, "myname", "with 'quote'", "K7", "@cls1", "back\\slash", "@cls00017_left", "@cls000123", "@cls"])
 
 
 @st.composite
@@ -81,17 +85,19 @@ def _case(draw):
                "dct": st.lists(st.tuples(_key, _lit()), max_size=3, unique_by=lambda kv: repr(kv[0])).map(
                    lambda v: ["d", [list(x) for x in v]]),
                "anyv": _lit(), "sub": _sub(), "subs": st.lists(_sub(), max_size=2).map(lambda v: ["l", v]),
-               "prec": _num}
+               "prec": _num, "optn": st.sampled_from([["n"], ["n"], ["f", "2.5"]]), "opts": st.sampled_from([["n"], ["n"], ["s", "y"]])}
         state = draw(st.fixed_dictionaries({}, optional=opt))
     elif cls == "Pos":
-        state = draw(st.fixed_dictionaries({"num": _num}, optional={
-            "s": st.one_of(_str, st.sampled_from([["s", "kwdefault"], ["s", "pdefault"]])), "i": _int, "anyv": _lit()}))
+        state = draw(st.fixed_dictionaries({"num": st.one_of(_num, _num, st.just(["n"]))}, optional={
+            "s": st.one_of(_str, st.sampled_from([["s", "kwdefault"], ["s", "pdefault"], ["n"]])), "i": _int, "anyv": _lit()}))
     elif cls == "PosNoKw":
         state = draw(st.fixed_dictionaries({"num": _num}, optional={"i": st.one_of(_int, st.sampled_from([["i", 7], ["i", 2]]))}))
     else:
         state = draw(st.fixed_dictionaries({"anyv": _lit(), "s": _str}, optional={"i": st.one_of(_int, st.just(["i", 2]))}))
     name = draw(_names) if cls != "PosNoKw" else None
-    return {"cls": cls, "state": state, "name": name}
+    # before the object is printed, an object of a *different* class with the same module and qualified name but another
+    # constructor signature may be printed (class factories, redefinitions): printing one must not affect the other
+    return {"cls": cls, "state": state, "name": name, "prelude": draw(st.sampled_from([None, None, "twin"]))}
 
 
 def strategy(tier):
@@ -184,11 +190,49 @@ def _same(a, b, path, diffs):
         diffs.append(f"{path}: {a!r} vs {b!r}")
 
 
+_TWIN_SIG = {
+    "Plain": ("num, **params", "num=num, **params", "1.0"),
+    "Pos": ("s, num=1.5, **params", "num, s, **params", "'tw'"),
+    "PosNoKw": ("i, num=1.5", "num, i", "3"),
+    "TwoPos": ("s, anyv, i=2, **params", "anyv, s, i, **params", "'tw', 5"),
+}
+
+
+def _print_twin(cls, res):
+    """Builds a distinct class with the module and qualified name of `cls` but a different constructor signature, prints
+    one of its objects and checks that text too."""
+    params, call, args = _TWIN_SIG[cls.__name__]
+    ns = {"base": cls}
+    exec(f"class {cls.__name__}(base):\n    def __init__(self, {params}):\n        base.__init__(self, {call})\n", ns)   # noqa: S102
+    T = ns[cls.__name__]
+    T.__module__, T.__qualname__ = cls.__module__, cls.__qualname__
+    t = eval(f"T({args})", {"T": T})     # noqa: S307
+    env = dict(ms.C20_CLASSES)
+    env["param"] = param
+    env[cls.__name__] = T
+    for how, text in (("pprint", t.param.pprint()), ("script_repr", script_repr(t, qualify=False, show_imports=False))):
+        try:
+            back = eval(text, dict(env))    # noqa: S307
+        except Exception as e:  # noqa: BLE001
+            res.fail(f"C20.{how}_not_evaluable", f"[same-named class] {how} text {text!r} of an object of a second class named "
+                                                 f"{cls.__name__} raised {type(e).__name__}: {e}")
+            continue
+        diffs = []
+        _same(t, back, "obj", diffs)
+        if diffs:
+            res.fail(f"C20.{how}_rebuilds_different", f"[same-named class] text {text!r}: " + "; ".join(diffs[:4]))
+
+
 def execute(case):
     res = Result()
     marks = set()
     cls = ms.C20_CLASSES[case["cls"]]
+    if case.get("prelude") == "twin":
+        _print_twin(cls, res)
+        res.label("same_named_class_printed_before")
     kw = {k: _dec(v, marks) for k, v in case["state"].items()}
+    if any(v is None for k, v in kw.items() if k in ("optn", "opts", "num", "s")):
+        marks.add("none_where_default_is_not_none")
     if case["name"] is not None:
         kw["name"] = case["name"].replace("@cls", case["cls"])      # names that merely resemble automatic ones
         marks.add("explicit_name")
